@@ -408,8 +408,9 @@ def rdm_case(draw):
     data_dtype = 'float'
     if method != 'correlation' and draw(st.integers(0, 3)) == 0:
         # integer-typed data matrices (e.g. counts) are data matrices too
-        data_dtype = 'int'
-        data = draw(st.lists(st.lists(st.integers(0, 9), min_size=n_vox, max_size=n_vox),
+        data_dtype = draw(st.sampled_from(['int', 'uint8']))
+        top = 9 if data_dtype == 'int' else 255      # (pixel values / raw counts in a narrow type)
+        data = draw(st.lists(st.lists(st.integers(0, top), min_size=n_vox, max_size=n_vox),
                              min_size=len(des['obs']), max_size=len(des['obs'])))
     n_centers = draw(st.integers(1, 6))
     kmin = 3 if method == 'correlation' else 1
@@ -423,7 +424,7 @@ def rdm_case(draw):
 
 
 def check_rdms(case):
-    data = np.array(case['data'], dtype=int if case.get('data_dtype') == 'int' else float)
+    data = np.array(case['data'], dtype={'int': int, 'uint8': np.uint8}.get(case.get('data_dtype'), float))
     events_plain = list(case['design']['obs'])
     events_arg = gen.as_desc(events_plain, case['events_form'])
     centers = np.array(case['centers'])
